@@ -314,9 +314,10 @@ pub struct CoreModel {
 }
 
 /// evaluate a core (struct / enum) with builders and parsers summarised
-pub fn core_model(cx: &Cx, kind: &str) -> Option<CoreModel> { core_model_with(cx, kind, &[]) }
-/// `record`: functions whose calls are recorded as Push events (receiver and arguments)
-pub fn core_model_with(cx: &Cx, kind: &str, record: &[String]) -> Option<CoreModel> {
+pub fn core_model(cx: &Cx, kind: &str) -> Option<CoreModel> { core_model_with(cx, kind, &[], &[]) }
+/// `record`: functions whose calls are recorded as Push events (receiver and arguments); `keep_open`: functions that are
+/// followed even though they return a Result (helpers a refactoring may have split off the core)
+pub fn core_model_with(cx: &Cx, kind: &str, record: &[String], keep_open: &[String]) -> Option<CoreModel> {
     let ix = &cx.ix;
     let role = cx.roles.iter().find(|r| r.item_kind == kind)?;
     let core = crate::roles::entry_core(ix, &role.core, kind);
@@ -328,10 +329,11 @@ pub fn core_model_with(cx: &Cx, kind: &str, record: &[String]) -> Option<CoreMod
     let cg = crate::roles::CallGraph::build(ix);
     let mut callees_all: Vec<String> = cg.edges.get(&core.qual).cloned().unwrap_or_default().into_iter().collect();
     if role.core.qual != core.qual { callees_all.extend(cg.edges.get(&role.core.qual).cloned().unwrap_or_default()); }
+    for k in keep_open { callees_all.extend(cg.edges.get(k).cloned().unwrap_or_default()); }
     {
         let callees = &callees_all;
         for c in callees {
-            if builders.contains(c) || *c == role.core.qual || *c == core.qual { continue; }
+            if builders.contains(c) || *c == role.core.qual || *c == core.qual || keep_open.contains(c) { continue; }
             if let Some(f) = ix.get_fn(c) {
                 let s = sig_text(&f);
                 let ret = s.rsplit("->").next().unwrap_or("").to_string();
@@ -366,7 +368,10 @@ pub fn kinds_filled_rule(cx: &Cx, rep: &mut Report) {
     let mut record = consumers.clone();
     record.push(ext.qual.clone());
     for kind in ["struct", "enum"] {
-        let Some(cm) = core_model_with(cx, kind, &record) else { rep.fail("roles", kind, "core", "core function not found", "-", json!({})); continue };
+        // helpers between the core and the recording call are followed, not summarised
+        // (those that are handed the set mutably: only they can fill it)
+        let keep_open: Vec<String> = ix.fns.values().flatten().filter(|f| f.qual != ext.qual && sig_text(f).contains("&mutHelperAttributeKinds") && !sig_text(f).contains("&Item")).map(|f| f.qual.clone()).collect();
+        let Some(cm) = core_model_with(cx, kind, &record, &keep_open) else { rep.fail("roles", kind, "core", "core function not found", "-", json!({})); continue };
         let mut judged = 0;
         let mut bad: Option<String> = None;
         for (st, fl) in &cm.outs {
@@ -381,7 +386,7 @@ pub fn kinds_filled_rule(cx: &Cx, rep: &mut Report) {
             if !filled { bad = Some("a successful path never records the derived traits in the helper-kind set".into()); }
             judged += 1;
         }
-        rep.check(bad.is_none() && judged > 0, "ES-kinds-filled", &format!("{kind} core"), "before-parsing", &format!("the helper-kind set is not filled from the item's own derive entries before helper attributes are parsed: {}", bad.unwrap_or_default()), &cm.site, json!({"paths": judged}));
+        rep.check(bad.is_none() && judged > 0, "ES-kinds-filled", &format!("{kind} core"), "before-parsing", &format!("the helper-kind set is not filled from the item's own derive entries before helper attributes are parsed: {}", bad.unwrap_or_default()), &cm.site, json!({"paths": judged, "outs": cm.outs.len(), "unsupported": cm.unsupported, "keep_open": keep_open}));
     }
 }
 
